@@ -1798,7 +1798,9 @@ class CryptContext:
         return True, None
 
     #: secret used for dummy_verify()
-    _dummy_secret = "too many secrets"
+    #: (kept within 8 bytes: a default scheme that truncates -- des_crypt at 8, lmhash at 14 --
+    #:  and is configured with truncate_error=True would refuse to hash anything longer)
+    _dummy_secret = "too many"
 
     #: context keywords used for dummy_verify(), for default schemes that require
     #: some (e.g. ``user`` for postgres_md5, oracle10, msdcc).
